@@ -21,6 +21,15 @@ EPH = "beyond/orbits/ephem.py"
 STA = "beyond/frames/stations.py"
 
 
+def _meth(repo, k, name):
+    """The implementation `k` instances use: own or inherited (a listener that drops its override gets its parent's)."""
+    f = repo.lookup_method(k, name)
+    if f is None:
+        from ..model import AnalysisError
+        raise AnalysisError(f"{k.ref} has no method {name}")
+    return f
+
+
 def _order_index(fnode, pred):
     for i, n in enumerate(ast.walk(fnode)):
         pass
@@ -198,8 +207,8 @@ def r10_5(chk):
                  f"info() returns {[unparse(r.value.func) if isinstance(r.value, ast.Call) else unparse(r.value) for r in rets]}, not {evname}", loc(info, info.node) if info else "")
         if k.name in WATCH_LABEL:
             watch, label = WATCH_LABEL[k.name]
-            call = k.methods["__call__"]
-            inf = k.methods["info"]
+            call = _meth(repo, k, "__call__")
+            inf = _meth(repo, k, "info")
 
             def copy_args(f):
                 for n in ast.walk(f.node):
@@ -210,7 +219,7 @@ def r10_5(chk):
             chk.inst("R10.5", f"{k.ref}::watch-label", ok, f"watches {watch}, labels by {label}, both in the same frame and form" if ok else
                      f"__call__ converts with {copy_args(call)}, info with {copy_args(inf)}", loc(inf, inf.node))
         elif k.name in PREV_LABEL:
-            inf = k.methods["info"]
+            inf = _meth(repo, k, "info")
             ok = "self(orb) > self(self.prev)" in unparse(inf.node)
             chk.inst("R10.5", f"{k.ref}::watch-label", ok, "labels by the trend of its own watched quantity between prev and the event" if ok else "changed", loc(inf, inf.node))
         else:
@@ -224,19 +233,19 @@ def r10_5(chk):
         if expr is None:
             continue
         k = repo.cls(LIS, name)
-        ok = expr in unparse(k.methods["info"].node)
-        chk.inst("R10.5", f"{k.ref}::label-direction", ok, expr if ok else "label expression changed (direction of the crossing)", loc(k.methods["info"], k.methods["info"].node))
+        ok = expr in unparse(_meth(repo, k, "info").node)
+        chk.inst("R10.5", f"{k.ref}::label-direction", ok, expr if ok else "label expression changed (direction of the crossing)", loc(_meth(repo, k, "info"), _meth(repo, k, "info").node))
     # watched quantities
     watched = {"NodeListener": "return orb.phi", "ApsideListener": "return orb.r_dot", "StationSignalListener": "return orb.phi - self.elev",
                "StationMaskListener": "return orb.phi - self.station.get_mask(orb.theta)", "StationMaxListener": "return orb.phi_dot",
                "RadialVelocityListener": "return orb.copy(frame=self.frame, form='spherical').r_dot", "AnomalyListener": "return self._diff(orb)"}
     for name, expr in watched.items():
         k = repo.cls(LIS, name)
-        ok = expr in unparse(k.methods["__call__"].node)
-        chk.inst("R10.5", f"{k.ref}::watched-quantity", ok, expr if ok else "watched quantity changed", loc(k.methods["__call__"], k.methods["__call__"].node))
+        ok = expr in unparse(_meth(repo, k, "__call__").node)
+        chk.inst("R10.5", f"{k.ref}::watched-quantity", ok, expr if ok else "watched quantity changed", loc(_meth(repo, k, "__call__"), _meth(repo, k, "__call__").node))
     an = repo.cls(LIS, "AnomalyListener")
-    ok = "return (self._convert(orb) - self.value + np.pi) % (2 * np.pi) - np.pi" in unparse(an.methods["_diff"].node)
-    chk.inst("R10.5", f"{an.ref}._diff", ok, "difference wrapped to [−π, π)" if ok else "changed", loc(an.methods["_diff"], an.methods["_diff"].node))
+    ok = "return (self._convert(orb) - self.value + np.pi) % (2 * np.pi) - np.pi" in unparse(_meth(repo, an, "_diff").node)
+    chk.inst("R10.5", f"{an.ref}._diff", ok, "difference wrapped to [−π, π)" if ok else "changed", loc(_meth(repo, an, "_diff"), _meth(repo, an, "_diff").node))
     chk.floor("R10.5", 9 * 3 + 4 + 7)
     if seen < 9:
         raise AnalysisError(f"only {seen} listener classes found (9 confirmed by reading)")
